@@ -495,6 +495,27 @@ pub fn shard(ctx: &Ctx) -> Shard {
             ops = pre;
             sh.add("histories_many_blobs", 1);
         }
+        // one history in six starts with a fat blob: 30..120 records over two or three keys with few distinct
+        // timestamps (so every key has many tied versions, markers among them) in ONE blob: what a regenerated
+        // index serves for a tie depends on the append order of that many records
+        if rng.chance(1, 6) {
+            let m = rng.range(30, 120);
+            let nk = rng.range(2, 3);
+            let mut pre = Vec::new();
+            for _ in 0..m {
+                let k = rng.below(nk) as u16;
+                let ts = rng.below(3);
+                if rng.chance(1, 7) {
+                    pre.push(Op::Del { k, ts, meta: None, only_if: false });
+                } else {
+                    pre.push(Op::Put { k, ts, meta: None, size: rng.range(8, 24) as u32 });
+                }
+            }
+            pre.push(if rng.chance(1, 2) { Op::ForceUpdate { pred: true } } else { Op::Close });
+            pre.extend(ops);
+            ops = pre;
+            sh.add("histories_fat_blob", 1);
+        }
         let hid = ((ctx.shard as u64) << 20) | n;
         match cfg.keylen {
             4 => history_eval::<4>(ctx, &mut sh, &mut rng, &cfg, &ops, hid),
